@@ -365,7 +365,9 @@ CpKinds ==
      [k |-> "SDES", chunks |-> << Chunk1(1, << Item(2, 2) >>) >>],                              \* no CNAME
      [k |-> "SDES", chunks |-> << >>],                                                          \* no chunks
      BaseBYE, Fb("PLI"), BaseAPP, MkXR(<< XrB("rrt") >>), RawOf(199, 3, Ramp(4, 50)),
-     [BaseAPP EXCEPT !.data = << 7 >>] >>                                                       \* a member that is padded (P bit set)
+     [BaseAPP EXCEPT !.data = << 7 >>],                                                         \* a member that is padded (P bit set)
+     \* two CNAMEs in two chunks; the second chunk's source is the SSRC of BaseSR and BaseRR
+     [k |-> "SDES", chunks |-> << [src |-> D4(77), items |-> << Item(1, 3) >>], [src |-> D4(1), items |-> << Item(2, 1), Item(1, 5) >>] >>] >>
 CpSeqs(maxlen) == UNION { [1..n -> 1..Len(CpKinds)] : n \in 0..maxlen }
 \* one length more over a reduced set: SR, RR, SDES with CNAME, SDES without, BYE, feedback, padded APP
 CpReduced == {1, 2, 4, 8, 10, 11, 15}
@@ -429,6 +431,47 @@ TextDom ==
   \cup { [BaseBYE EXCEPT !.reason = tx] : tx \in OctetTexts }
   \cup { [BaseAPP EXCEPT !.data = tx, !.name = Fill(4, 128)] : tx \in { Fill(n, x) : n \in {1, 64, 65}, x \in {128, 255} } }
 
+\* ---- texts that code may treat specially: white space only, a byte order mark, a leading or trailing NUL,
+\* "self-describing" texts whose first octet is the length of the text or of the rest ---------------------
+SpecialTexts == { << 32 >>, << 9 >>, << 13, 10 >>, << 32, 9, 13, 10 >>, << 239, 187, 191 >>, << 239, 187, 191 >> \o Ramp(3, 97),
+                  << 1 >>, << 2, 97, 98, 99 >>, << 3, 97, 98, 99 >>, << 4, 97, 98, 99 >>, << 0 >> \o Ramp(2, 97), Ramp(3, 97) \o << 0 >>,
+                  << 32 >> \o Ramp(3, 97) \o << 32 >> }
+SpecialDom ==
+  { [k |-> "SDES", chunks |-> << Chunk1(1, << [t |-> t, text |-> tx], Item(6, 2) >>) >>] : tx \in SpecialTexts, t \in {1, 2, 8} }
+  \cup { [BaseBYE EXCEPT !.reason = tx] : tx \in SpecialTexts }
+  \cup { [BaseAPP EXCEPT !.data = tx] : tx \in SpecialTexts }
+  \cup { [BaseAPP EXCEPT !.name = nm] : nm \in { << 82, 69, 77, 66 >>, << 32, 32, 32, 32 >>, << 0, 0, 0, 0 >> } }
+\* ---- lists whose neighbours are related (consecutive, contiguous, same key, descending): an encoder or decoder
+\* that merges, sorts or de-duplicates shows here, not on independent elements ------------------------------
+RelDom ==
+  { [BaseSLI EXCEPT !.sli = << Sli(700, 37, 21), Sli(737, 12, 21), Sli(2000, 3, 22) >>],
+    [BaseSLI EXCEPT !.sli = << Sli(10, 1, 5), Sli(11, 1, 5), Sli(12, 1, 5) >>],
+    [BaseSLI EXCEPT !.sli = << Sli(30, 2, 5), Sli(20, 2, 5), Sli(10, 2, 5) >>],
+    [BaseNACK EXCEPT !.nacks = << Pair(100, 65535), Pair(117, 65535) >>], [BaseNACK EXCEPT !.nacks = << Pair(100, 1), Pair(101, 1) >>],
+    [BaseNACK EXCEPT !.nacks = << Pair(100, 0), Pair(101, 0), Pair(102, 0) >>], [BaseNACK EXCEPT !.nacks = << Pair(300, 0), Pair(200, 0), Pair(100, 0) >>],
+    [BaseNACK EXCEPT !.nacks = << Pair(65535, 3), Pair(16, 0) >>],
+    [BaseFIR EXCEPT !.fir = << Fir(D4(9), 7), Fir(D4(9), 8) >>], [BaseFIR EXCEPT !.fir = << Fir(D4(9), 255), Fir(D4(9), 0) >>],
+    [BaseFIR EXCEPT !.fir = << Fir(D4(5), 7), Fir(D4(1), 7) >>],
+    [BaseREMB EXCEPT !.ssrcs = << D4(9), << 9, 10, 11, 13 >>, << 9, 10, 11, 14 >> >>], [BaseREMB EXCEPT !.ssrcs = << D4(9), D4(5), D4(1) >>],
+    [k |-> "BYE", srcs |-> << D4(1), << 1, 2, 3, 5 >>, << 1, 2, 3, 6 >> >>, reason |-> << >>],
+    [BaseSR EXCEPT !.reports = << RBn(1), [RBn(2) EXCEPT !.ssrc = RBn(1).ssrc] >>], [BaseRR EXCEPT !.reports = << RBn(2), RBn(1) >>],
+    [BaseSR EXCEPT !.reports = << [RBn(1) EXCEPT !.ssrc = D4(1)] >>],
+    [k |-> "SDES", chunks |-> << Chunk1(1, << Item(1, 3), Item(2, 3) >>), Chunk1(1, << Item(1, 4) >>) >>],
+    [k |-> "SDES", chunks |-> << Chunk1(2, << Item(1, 3) >>), Chunk1(1, << Item(1, 3) >>) >>],
+    [BaseCCFB EXCEPT !.blocks = << CcBlock(D4(5), 10, << Mb(TRUE, 1, 2), Mb(TRUE, 1, 3) >>), CcBlock(D4(5), 12, << Mb(TRUE, 1, 4) >>) >>],
+    [BaseCCFB EXCEPT !.blocks = << CcBlock(D4(1), 10, << Mb(TRUE, 1, 2) >>) >>],
+    MkTWCC(5, << Rl(1, 2), Rl(1, 3) >>, [i \in 1..5 |-> Dl(1, 4)], FALSE),
+    MkTWCC(4, << Rl(1, 2), Rl(2, 2) >>, << Dl(1, 1), Dl(1, 2), Dl(2, 3), Dl(2, 4) >>, FALSE),
+    [MkTWCC(1, << Rl(1, 1) >>, << Dl(1, 7) >>, FALSE) EXCEPT !.media = D4(1)],
+    [Fb("PLI") EXCEPT !.media = D4(1)], [Fb("RRR") EXCEPT !.media = D4(1)], [BaseNACK EXCEPT !.media = D4(1)],
+    [BaseFIR EXCEPT !.fir = << Fir(D4(5), 7) >>], [BaseFIR EXCEPT !.fir = << Fir(D4(1), 7) >>],
+    [BaseREMB EXCEPT !.ssrcs = << D4(1) >>],
+    MkXR(<< [XrB("lrle") EXCEPT !.bs = 258, !.es = 772], [XrB("lrle") EXCEPT !.bs = 772, !.es = 900] >>),
+    MkXR(<< [XrB("lrle") EXCEPT !.ssrc = D4(1)] >>), MkXR(<< [XrB("voip") EXCEPT !.ssrc = D4(1)], [XrB("ss") EXCEPT !.ssrc = D4(1)] >>),
+    MkXR(<< [XrB("dlrr") EXCEPT !.reports = << [ssrc |-> D4(1), lrr |-> D4(5), dlrr |-> D4(9)], [ssrc |-> D4(1), lrr |-> D4(6), dlrr |-> D4(9)] >>] >>),
+    MkXR(<< [XrB("prt") EXCEPT !.times = << D4(33), << 33, 34, 35, 37 >>, << 33, 34, 35, 38 >> >>] >>),
+    MkXR(<< [XrB("lrle") EXCEPT !.chunks = << 16385, 16386, 16387, 16388 >>] >>) }
+
 \* ---- values with unaligned variable-length parts (C05: if Marshal succeeds the output is framed and its size is MarshalSize) ----
 OddRle(n) == [XrB("lrle") EXCEPT !.chunks = [i \in 1..n |-> (300 + i) % 65536]]
 UnalignedDom ==
@@ -448,5 +491,5 @@ OversizeDom ==
   \cup { MkXR(<< [XrB("ss") EXCEPT !.toh = t] >>) : t \in {4, 7, 255} }
 LooseDom == UnalignedDom \cup OversizeDom
 
-PairAll == DupDom \cup TextDom \cup PairSR \cup PairRR \cup PairSDES \cup PairBYE \cup PairAPP \cup PairNACK \cup PairSLI \cup PairFIR \cup PairREMB \cup PairCCFB
+PairAll == DupDom \cup TextDom \cup SpecialDom \cup RelDom \cup PairSR \cup PairRR \cup PairSDES \cup PairBYE \cup PairAPP \cup PairNACK \cup PairSLI \cup PairFIR \cup PairREMB \cup PairCCFB
 =============================================================================
